@@ -354,3 +354,23 @@ func checkVectors(c *Ctx, tag string, seg segment.Segment, m *model.Seg, rng *ra
 		r.Inc("vec_nonvector_fields_checked", 1)
 	}
 }
+
+// checkVectorsLight: one unfiltered and one filtered search per vector field.
+func checkVectorsLight(r *oracle.Report, tag string, seg segment.Segment, m *model.Seg, rng *rand.Rand) {
+	vs, ok := seg.(segment.VectorSegment)
+	if !ok {
+		r.Fail("vec-iface", "%s: segment %T is not a VectorSegment", tag, seg)
+		return
+	}
+	for f, vm := range m.Vec {
+		exSet, exBM := genExcept(rng, m.NumDocs, rng.Intn(5))
+		qs := genQueries(rng, vm, m.NumDocs, true)
+		for _, vq := range qs[:2] {
+			t := fmt.Sprintf("%s field %q (k=%d filtered=%v)", tag, f, vq.k, vq.filtered)
+			got, ok := searchOnce(r, t, vs, f, exBM, vq)
+			if ok {
+				checkVecResult(r, t, vm, exSet, vq, got, len(vm.Entries) < 1000)
+			}
+		}
+	}
+}
